@@ -20,8 +20,8 @@
    Environment: unconstrained (any order, duplicates, overlapping declarations).  The ghost `legal` says
    whether the declarations seen so far are consistent (every sequence is covered by ONE event identity:
    a document, a principal, an unused single or one unused range; redelivery of the same event is legal).
-   The exactness half of SkippedExact and exactly-once delivery are demanded for legal feeds; everything
-   else for all feeds.
+   The exactness half of SkippedExact (skipped \subseteq missing) is demanded for legal feeds; everything else
+   for all feeds (no-loss for every document arrival that was live, see LiveAt).
    Impl* conjuncts define implementation variables, Ghost* the history variables (they may read out').
    Decides C08. *)
 EXTENDS Integers, Sequences, FiniteSets, TLC
@@ -44,10 +44,10 @@ NoOwner == [k |-> "none", a |-> 0, b |-> 0]
 
 VARIABLES next, pending, received, skipped, hcs, stable, nsk, out, star, lls,   \* implementation (see Trace_ChangeCache for the projection)
           maxNum,                                                            \* configuration of this behaviour
-          owner, legal, docArr, superseded, cnt, rcnt, delivered, hiNL, ordOK, phantom, abandoned, lateSet, lateDoc, lastKind,  \* ghosts
+          owner, legal, docArr, docLive, cnt, rcnt, delivered, hiNL, ordOK, phantom, abandoned, lateSet, lateDoc, lastKind,  \* ghosts
           hist
 impl  == <<next, pending, received, skipped, hcs, stable, nsk, out, star, lls>>
-ghost == <<maxNum, owner, legal, docArr, superseded, cnt, rcnt, delivered, hiNL, ordOK, phantom, abandoned, lateSet, lateDoc, lastKind>>
+ghost == <<maxNum, owner, legal, docArr, docLive, cnt, rcnt, delivered, hiNL, ordOK, phantom, abandoned, lateSet, lateDoc, lastKind>>
 vars  == <<impl, ghost, hist>>
 view  == <<impl, ghost>>
 
@@ -186,12 +186,16 @@ GApply(g, e) ==                   \* what the feed has declared so far (pure; al
    owner  |-> [s \in Win |-> IF s \in Cover(e) /\ g.owner[s] = NoOwner THEN id ELSE g.owner[s]],
    docArr |-> IF e.kind = "doc" THEN g.docArr \cup {e.seq} ELSE g.docArr]
 GCur == [legal |-> legal, owner |-> owner, docArr |-> docArr]
+(* a document arrival is LIVE if its sequence has not been consumed already (by an earlier delivery, a conflicting unused
+   declaration, or abandonment) and no other declaration of it is waiting in pending: only live arrivals must be forwarded *)
+LiveAt(q) == (q >= next \/ q \in skipped) /\ q \notin received
 GhostEvent(e, lateS) ==
   LET g == GApply(GCur, e) IN
   /\ legal' = g.legal /\ owner' = g.owner /\ docArr' = g.docArr
   /\ lateSet' = lateS /\ lateDoc' = (IF e.kind = "doc" THEN lateS ELSE {}) /\ lastKind' = e.kind
+  /\ docLive' = (IF e.kind = "doc" /\ e.end = 0 /\ LiveAt(e.seq) THEN docLive \cup {e.seq} ELSE docLive)
   /\ GhostOut(g.docArr)
-  /\ UNCHANGED <<maxNum, abandoned, superseded>>
+  /\ UNCHANGED <<maxNum, abandoned>>
 GhostArrive(e) == /\ GhostEvent(e, IF e.seq \in skipped THEN {e.seq} ELSE {})
                   /\ cnt' = [s \in Win |-> IF s = e.seq THEN cnt[s] + 1 ELSE cnt[s]] /\ rcnt' = rcnt
 GhostArriveRange(e) == /\ GhostEvent(e, IF e.end < next THEN (e.seq..e.end) \cap skipped ELSE {})
@@ -205,16 +209,16 @@ SeqSet(sq) == {sq[i] : i \in 1..Len(sq)}
 GhostDoc(d) ==
   LET g == GApply(GFold(GFold(GCur, d.unused, "unused", 1), OlderRecent(d), "recent", 1), Sub(d.seq, "doc", FALSE)) IN
   /\ legal' = g.legal /\ owner' = g.owner /\ docArr' = g.docArr
-  /\ superseded' = superseded \cup SeqSet(OlderRecent(d))
+  /\ docLive' = (IF g.legal /\ LiveAt(d.seq) THEN docLive \cup {d.seq} ELSE docLive)   \* sub-entries run first: judged for legal feeds only
   /\ lateSet' = (SeqSet(d.unused) \cup SeqSet(OlderRecent(d)) \cup {d.seq}) \cap skipped
   /\ lateDoc' = {d.seq} \cap skipped /\ lastKind' = "doc"
   /\ GhostOut(g.docArr)
   /\ cnt' = [s \in Win |-> IF s = d.seq THEN cnt[s] + 1 ELSE cnt[s]] /\ rcnt' = rcnt
   /\ UNCHANGED <<maxNum, abandoned>>
 GhostTick    == /\ GhostOut(docArr) /\ lateSet' = {} /\ lateDoc' = {} /\ lastKind' = "tick"
-                /\ UNCHANGED <<maxNum, owner, legal, docArr, superseded, cnt, rcnt, abandoned>>
+                /\ UNCHANGED <<maxNum, owner, legal, docArr, docLive, cnt, rcnt, abandoned>>
 GhostAbandon == /\ abandoned' = abandoned \cup skipped /\ GhostOut(docArr) /\ lateSet' = {} /\ lateDoc' = {} /\ lastKind' = "abandon"
-                /\ UNCHANGED <<maxNum, owner, legal, docArr, superseded, cnt, rcnt>>
+                /\ UNCHANGED <<maxNum, owner, legal, docArr, docLive, cnt, rcnt>>
 
 Step(a, e) == hist' = Append(hist, [a |-> a, seq |-> e.seq, end |-> e.end, kind |-> e.kind, old |-> e.old, unused |-> <<>>, recent |-> <<>>])
 NoEntry == [seq |-> 0, end |-> 0, kind |-> "", old |-> FALSE]
@@ -228,7 +232,7 @@ Abandon        == ImplAbandon /\ GhostAbandon /\ Step("Abandon", NoEntry)
 
 InitImpl == /\ next = 1 /\ pending = EmptyBag /\ received = {} /\ skipped = {} /\ hcs = 0 /\ stable = 0 /\ nsk = 0
             /\ out = <<>> /\ star = <<>> /\ lls = 0
-InitGhost == /\ owner = [s \in Win |-> NoOwner] /\ legal = TRUE /\ docArr = {} /\ superseded = {} /\ cnt = [s \in Win |-> 0] /\ rcnt = 0
+InitGhost == /\ owner = [s \in Win |-> NoOwner] /\ legal = TRUE /\ docArr = {} /\ docLive = {} /\ cnt = [s \in Win |-> 0] /\ rcnt = 0
              /\ delivered = [s \in Win |-> 0] /\ hiNL = 0 /\ ordOK = TRUE /\ phantom = FALSE /\ abandoned = {}
              /\ lateSet = {} /\ lateDoc = {} /\ lastKind = "init"
 Init == InitImpl /\ InitGhost /\ maxNum \in MaxNums /\ hist = <<>>
@@ -252,8 +256,8 @@ PendingSeqs == {e.seq : e \in {x \in DOMAIN pending : x.kind = "doc"}}
 Once == /\ \A s \in Win : delivered[s] <= 1                  \* forwarded to the channel cache at most once ...
         /\ \A i \in 1..(Len(star) - 1) : star[i] < star[i + 1]   \* ... and visible once in the all-documents channel
         /\ ~phantom                                          \* nothing is forwarded that did not arrive
-Delivered ==                                                 \* ... and not lost: forwarded, or still waiting for its gap
-  legal => \A s \in (docArr \ abandoned) \ superseded : (s \in Win /\ delivered[s] >= 1 /\ InSeq(star, s)) \/ s \in PendingSeqs
+Delivered ==                                                 \* ... and not lost: forwarded and visible, or still waiting for its gap
+  \A s \in docLive : (s \in Win /\ delivered[s] >= 1 /\ InSeq(star, s)) \/ s \in PendingSeqs
 InOrder == ordOK                                             \* non-late forwards are in increasing sequence order
 HwmSound == \A s \in 1..(next - 1) : Arr(s) \/ s \in skipped \/ s \in abandoned
 NoHiddenGap == Missing \subseteq skipped
